@@ -27,6 +27,8 @@ TYPES = {
     "obj": (None, "K()", "K()", "C.f", "1"),
     "optobj": ("K?", "K()", "K()", "(get C).f", "1"),
     "optlist": ("[int...]?", "[1, 2]", "lz", "get C", "[1, 2]"),
+    # an object that holds ANOTHER object: state reachable from the constant through a field or through a getter
+    "objinner": (None, "K()", "K()", "(C.inner).g", "3"),
 }
 OPS = ["+=", "-=", "*=", "/=", "%="]
 
@@ -54,6 +56,10 @@ def write_forms(t):
     if t == "obj":
         out.append(("field-assign", "C.f = 9", False))
         out += [("field-op" + op, "C.f %s 9" % op, False) for op in ("+=", "*=")]
+    if t == "objinner":
+        out += [("inner-field-assign", "C.inner.g = 9", False), ("inner-field-op+=", "C.inner.g += 9", False), ("getter-field-assign", "C.get_inner().g = 9", False),
+                ("getter-field-op+=", "C.get_inner().g += 9", False), ("self-then-getter-field-assign", "C.me().get_inner().g = 9", False),
+                ("getter-of-getter-field-assign", "C.get_inner().me().g = 9", False), ("getter-result-replaced", "C.inner = In()", False)]
     SEP = "if true {\n}\n"      # a statement must not start with `(` right after an expression: it would be parsed as a call
     if t == "obj":
         out += [("or-fallback-field-op+=", "nobody: K? = nil\n" + SEP + "(nobody or C).f += 9", False)]
@@ -108,11 +114,11 @@ def decl_forms(decl_ctx, t):
     """declaration forms applicable to (context, type): `const C: T = v`, `const C = v`, `const [C, cz] = [v, 0]`,
     `export const C: T = v` (module level only); the optional type needs its annotation"""
     out = ["typed"]
-    if t not in ("opt", "obj", "optobj", "optlist"):
+    if t not in ("opt", "obj", "optobj", "optlist", "objinner"):
         out.append("untyped")
     if t not in ("opt", "optobj", "optlist"):
         out.append("unpack")
-    if decl_ctx == "module" and t != "obj":
+    if decl_ctx == "module" and t not in ("obj", "objinner"):
         out.append("export")
     return out
 
@@ -120,6 +126,9 @@ def decl_forms(decl_ctx, t):
 def program(decl_ctx, t, form, wtext, wctx, dform="typed", const=True):
     ann, init, other, obs, exp = TYPES[t]
     pre = "class K {\n\tf: int\n\tconstructor(self) {\n\t\tself.f = 1\n\t}\n}\n" if t in ("obj", "optobj") else ""
+    if t == "objinner":
+        pre = ("class In {\n\tg: int\n\tconstructor(self) {\n\t\tself.g = 3\n\t}\n\tfn me(self) -> Self {\n\t\treturn self\n\t}\n}\n"
+               "class K {\n\tf: int\n\tinner: In\n\tconstructor(self) {\n\t\tself.f = 1\n\t\tself.inner = In()\n\t}\n\tfn get_inner(self) -> In {\n\t\treturn self.inner\n\t}\n\tfn me(self) -> Self {\n\t\treturn self\n\t}\n}\n")
     if dform == "typed":
         decl = "const C%s = %s" % ((": " + ann) if ann else "", init)
     elif dform == "untyped":
@@ -131,7 +140,7 @@ def program(decl_ctx, t, form, wtext, wctx, dform="typed", const=True):
     if not const:
         decl = decl.replace("const ", "", 1)        # the non-const twin: the same write must then be accepted
     aux = "src: int? = 7\n" if t == "opt" else ("lz: [int...] = [9]\n" if t in ("list", "optlist") else "")
-    reader = "rd = fn() -> %s {\n\treturn %s\n}" % ({"int": "int", "str": "str", "bool": "bool", "list": "[int...]", "opt": "int?", "obj": "int", "optobj": "int", "optlist": "[int...]"}[t], obs)
+    reader = "rd = fn() -> %s {\n\treturn %s\n}" % ({"int": "int", "str": "str", "bool": "bool", "list": "[int...]", "opt": "int?", "obj": "int", "optobj": "int", "optlist": "[int...]", "objinner": "int"}[t], obs)
     body = "%s\n%s%s\n%s\nprint \"@obs\"\nprint %s\nprint rd()" % (decl, aux, reader, place_write(wtext, wctx), obs)
     if decl_ctx == "module":
         return pre + "print \"@start\"\n" + body + "\n"
